@@ -53,7 +53,8 @@ impl<T: Float> KahanSum<T> {
     /// Return the current value of the sum
     ///
     pub fn value(&self) -> T {
-        self.sum + self.compensation
+        // the compensation term holds the excess of `sum` over the true sum
+        self.sum - self.compensation
     }
 }
 
@@ -77,8 +78,17 @@ impl<T: Float + core::fmt::Display> core::fmt::Display for KahanSum<T> {
 
 impl<T: Float> core::ops::AddAssign<Self> for KahanSum<T> {
     fn add_assign(&mut self, rhs: Self) {
-        kahan_add(&mut self.sum, rhs.sum, &mut self.compensation);
-        kahan_add(&mut self.sum, rhs.compensation, &mut self.compensation);
+        // Kahan's error term is exact only when the running sum dominates the addend:
+        // accumulate the register with the smaller sum into the one with the larger sum.
+        let (mut acc, other) = if rhs.sum.abs() > self.sum.abs() {
+            (rhs, *self)
+        } else {
+            (*self, rhs)
+        };
+        kahan_add(&mut acc.sum, other.sum, &mut acc.compensation);
+        // a register represents sum - compensation
+        kahan_add(&mut acc.sum, -other.compensation, &mut acc.compensation);
+        *self = acc;
     }
 }
 
